@@ -130,16 +130,13 @@ fn any_proto() -> ProtoHdr {
 /// header | payload | tag; the AEAD gets key, nonce = flags | counter | LOCAL node id and
 /// AAD = exactly the encoded plain header; decoding it again (identity cipher) yields the
 /// same header fields and payload.
-#[cfg_attr(kani, kani::proof)]
-#[cfg_attr(kani, kani::unwind(66))]
-#[cfg_attr(not(kani), test)]
-fn c03_q_encode_then_decode_roundtrip() {
+fn encode_then_decode_roundtrip<const N: usize, const B: usize>() {
     let mut tx = PacketHdr::new();
     tx.plain = any_plain();
     tx.proto = any_proto();
-    let payload: [u8; 4] = any_bytes::<4>();
+    let payload: [u8; N] = any_bytes::<N>();
     let pl = any_usize();
-    assume(pl <= 4);
+    assume(pl <= N);
     let mut key = AEAD_KEY_ZEROED;
     let k0 = any_u8();
     key.access_mut()[0] = k0;
@@ -149,7 +146,7 @@ fn c03_q_encode_then_decode_roundtrip() {
         REC.dec_calls = 0;
         REC.enc_calls = 0;
     }
-    let mut buf = [0u8; 64];
+    let mut buf = [0u8; B];
     let mut wb = WriteBuf::new(&mut buf);
     vok!(wb.reserve(PacketHdr::HDR_RESERVE), "reserve");
     vok!(wb.append(&payload[..pl]), "append");
@@ -193,8 +190,23 @@ fn c03_q_encode_then_decode_roundtrip() {
         i += 1;
     }
     vassert!(total == hlen + 6 + (if tx.proto.get_vendor().is_some() { 2 } else { 0 }) + (if tx.proto.get_ack().is_some() { 4 } else { 0 }) + pl + 16, "ROLE:datagram-length-is-headers+payload+tag");
-    vcover!(pl == 4 && hlen == 24);
+    vcover!(pl == N && hlen == 24);
     vcover!(pl == 0);
+}
+
+#[cfg_attr(kani, kani::proof)]
+#[cfg_attr(kani, kani::unwind(66))]
+#[cfg_attr(not(kani), test)]
+fn c03_q_encode_then_decode_roundtrip() {
+    encode_then_decode_roundtrip::<4, 64>();
+}
+
+/// thorough: payload <= 16 bytes (one AEAD block boundary and beyond)
+#[cfg_attr(kani, kani::proof)]
+#[cfg_attr(kani, kani::unwind(82))]
+#[cfg_attr(not(kani), test)]
+fn c03_t_encode_then_decode_roundtrip_16() {
+    encode_then_decode_roundtrip::<17, 80>();
 }
 
 /// C17: PlainHdr decode -> encode is the identity on every accepted prefix of 26 bytes, and
